@@ -187,6 +187,20 @@ fn replay_value(v: &Value) -> Vec<Violation> {
     // Under the shim a hash-order dependence reproduces at once. A dependence on the free-running
     // rayon pool (or another uncontrolled source) may need several attempts: up to 20 are made, the
     // verdict text does not depend on how many were needed.
+    if axis == "history" {
+        let outs = run_children(&[a.clone()], 1);
+        for (_, r) in &outs {
+            match r {
+                Ok(o) => {
+                    if let Some(h) = o.fps.get(&est).and_then(|v| v.iter().find(|h| h.starts_with("ERR:HISTORY-DEPENDENCE"))) {
+                        return vec![Violation::new(format!("history_dependence.{}", est), h.trim_start_matches("ERR:").to_string(), v.clone())];
+                    }
+                }
+                Err(e) => machinery(&format!("replay child failed: {}", e)),
+            }
+        }
+        return vec![];
+    }
     let mut differs = false;
     for _attempt in 0..20 {
         let outs = run_children(&envs, 3);
@@ -197,12 +211,11 @@ fn replay_value(v: &Value) -> Vec<Violation> {
                 Err(e) => machinery(&format!("replay child failed: {}", e)),
             }
         }
-        let d = if axis == "in_process_rerun" || axis == "process_rerun" {
-            let all: BTreeSet<&String> = vectors.iter().flatten().collect();
-            all.len() > 1
-        } else {
-            vectors.iter().any(|v| *v != vectors[0])
-        };
+        // any two outcomes of this estimator that differ - between the two environments or between
+        // repetitions inside one of them - reproduce the report: what was first seen as a difference
+        // between two hash seeds may really come from a free-running race
+        let all: BTreeSet<&String> = vectors.iter().flatten().collect();
+        let d = all.len() > 1 || vectors.iter().any(|v| *v != vectors[0]);
         if d {
             differs = true;
             break;
@@ -333,6 +346,7 @@ fn main() {
     let mut seen: BTreeMap<String, BTreeMap<String, (String, Env)>> = BTreeMap::new();
     let mut in_process_diff: BTreeMap<String, Env> = BTreeMap::new();
     let mut errors: BTreeMap<String, String> = BTreeMap::new();
+    let mut history: BTreeMap<String, (String, Env)> = BTreeMap::new();
     for (i, (env, r)) in outs.iter().enumerate() {
         match r {
             Err(e) => {
@@ -348,7 +362,9 @@ fn main() {
                         in_process_diff.entry(est.clone()).or_insert(env.clone());
                     }
                     for h in hs {
-                        if h.starts_with("ERR") || h.starts_with("PANIC") {
+                        if h.starts_with("ERR:HISTORY-DEPENDENCE") {
+                            history.entry(est.clone()).or_insert((h.clone(), env.clone()));
+                        } else if h.starts_with("ERR") || h.starts_with("PANIC") {
                             errors.entry(est.clone()).or_insert(h.clone());
                         }
                         seen.entry(est.clone()).or_default().entry(h.clone()).or_insert((axes[i].clone(), env.clone()));
@@ -362,6 +378,14 @@ fn main() {
     }
     if !errors.is_empty() {
         machinery(&format!("registry entries failed to fit (harness defect, not a verdict): {:?}", errors));
+    }
+    // a registry entry that compares a fit after another fit in the same buffer with a fresh fit
+    for (est, (msg, env)) in &history {
+        ctx.violation(Violation::new(
+            format!("history_dependence.{}", est),
+            msg.trim_start_matches("ERR:").to_string(),
+            json!({"kind": "children", "estimator": est, "axis": "history", "env_a": env.to_json(), "env_b": env.to_json()}),
+        ));
     }
     let mut outcome_counts = serde_json::Map::new();
     // per estimator: outcome of every environment (first in-process repetition is representative;
